@@ -2,6 +2,7 @@ CONSTANTS
   N = 5
   MaxB = 1
   WithInit = TRUE
+  CanonInit = TRUE
   EmitCases = FALSE
 INIT Init
 NEXT Next
